@@ -257,6 +257,8 @@ theorem intEnd_eval (p : PState) (minus ip : Bytes) (hm : minus = [] ∨ minus =
     intEnd p = (scalar p (if (minus ++ ip).length > 9 then .num (minus ++ ip) else .int (myatoiz (minus ++ ip)))).bind
       fun p1 => some (.again, p1) := by
   unfold intEnd
+  -- the only place where the value of the extracted split matters: the RFC side (`norm`) says 9
+  rw [show Gen.Xdl.intSplit = 9 from rfl]
   simp only [hb]
   cases hip with
   | zero =>
